@@ -2,6 +2,7 @@
 from harness.impl_bed import impl_bed_op
 
 WARM_TWINS = {"quick": 0.02, "thorough": 0.05}      # engine: call-history twins (harness/warm.py)
+DECOY_TWINS = {"quick": 0.02, "thorough": 0.05}     # engine: decoy twins (harness/decoy.py)
 ID = "C14"
 LEAN_MODULE = "BioCantor.Props.C14"
 DESIGN_REF = "4/C14"
